@@ -323,7 +323,12 @@ impl GFpEchelonBuilder {
             for j in 1..N {
                 mw += ws[j][i] as u128 * ms[j] as u128;
             }
-            let mw = mg_redc(self.p, self.pinv, mw);
+            // The sum of N products can exceed pR: the reduction is then only
+            // correct modulo p, not below p.
+            let mut mw = mg_redc(self.p, self.pinv, mw);
+            while mw >= p {
+                mw -= p;
+            }
             if v[i] >= mw {
                 v[i] -= mw;
             } else {
